@@ -874,17 +874,17 @@ def C20(run):
     discharged = sum(1 for a in apa if a["result"] == "discharged")
     # conformance: the real memory_utils.c at 8- and 16-bit size_t, the compiled library at 64 bits, end to end
     out = run.path("sizearith.ndjson")
+    lib = build_lib(run, "dbg")
     with open(out, "wb") as fo:
         for bits in (8, 16):
             exe = run.path("h_narrow%d" % bits)
             p = sh(["clang", "-O1", "-g", "-fsanitize=undefined", "-fno-sanitize-recover=all", "-DNARROW_BITS=%d" % bits, "-I", os.path.join(REPO, "src"),
-                    os.path.join(HARNESS, "h_narrow.c"), "-o", exe], check=False)
+                    "-I", lib["dir"], "-I", os.path.join(lib["dir"], "src"), os.path.join(HARNESS, "h_narrow.c"), "-o", exe], check=False)
             if p.returncode != 0:
                 raise Infra("memory_utils.c does not compile with a %d-bit size_t: %s" % (bits, p.stdout.decode()[-1500:]))
             part = run.path("narrow%d.ndjson" % bits)
             _record_simple(run, exe, [], part, "memory_utils.c at %d-bit size_t" % bits)
             fo.write(open(part, "rb").read())
-        lib = build_lib(run, "dbg")
         exe = build_harness(run, lib, "h_sizearith", ["vh.c", "h_sizearith.c"])
         part = run.path("w64.ndjson")
         _record_simple(run, exe, [run.tier], part, "size arithmetic at 64 bits")
